@@ -309,6 +309,13 @@ def solve_one(args):
         dt = time.time() - t0
         log.append(('z3-5.1(api)', str(r), round(dt, 3)))
         if r == z3.unsat:
+            if tier == 'thorough':
+                # second opinion from an independent build: a 'sat' here is a checker error
+                text2 = text if '(check-sat)' in text else text + '\n(check-sat)\n'
+                ans, dt2 = run_cli(['/usr/bin/z3', '-T:%d' % CLI_S], text2, CLI_S + 5)
+                log.append(('z3-4.8.12 (cross-check)', ans, round(dt2, 3)))
+                if ans == 'sat':
+                    return idx, 'disagree', 'z3-5.1(api) unsat vs z3-4.8.12 sat', time.time() - t0, None, log
             return idx, 'unsat', 'z3-5.1(api)', dt, None, log
         if r == z3.sat:
             return idx, 'sat', 'z3-5.1(api)', dt, model_dict(s.model()), log
